@@ -197,3 +197,122 @@ Proof. intros H. unfold hilbert_partition. destruct (N.ltb_spec maxo order); [re
    the quantile search; none is reachable: *)
 Theorem assign_parts_no_panic splits idx : exists ids, assign_parts splits idx = Ok ids.
 Proof. apply assign_parts_total. Qed.
+
+(* ------------------------------------------------------------------ *)
+(* weighted_quantiles never panics (it returns or runs out of fuel)     *)
+(* ------------------------------------------------------------------ *)
+
+Definition no_panic {A} (r : res A) : Prop := (exists a, r = Ok a) \/ r = OutOfFuel.
+
+Lemma part_weights_of_ok positions : forall pts ws acc,
+  length acc = S (length positions) -> exists r, part_weights_of positions pts ws acc = Ok r.
+Proof.
+  induction pts as [|p pt IH]; intros ws acc HL; cbn [part_weights_of]; [eexists; reflexivity|].
+  destruct ws as [|w wt]; [eexists; reflexivity|].
+  destruct (bsearch_pc_le_len positions p) as [s [Hs Hle]]. rewrite Hs. cbn [bind].
+  destruct (nth_opt_lt acc s) as [x Hx]; [lia|]. rewrite Hx.
+  apply IH. rewrite set_nth_length. exact HL.
+Qed.
+
+Lemma scan_up_ok positions pws expected : forall qs pw mn mx,
+  Forall (fun q => q < length pws /\ q < length positions) qs ->
+  exists r, scan_up positions pws expected qs pw mn mx = Ok r.
+Proof.
+  induction qs as [|q qt IH]; intros pw mn mx HF; cbn [scan_up]; [eexists; reflexivity|].
+  inversion HF as [|? ? [H1 H2] HT]; subst.
+  destruct (nth_opt_lt pws q H1) as [w Hw]. destruct (nth_opt_lt positions q H2) as [sq Hsq].
+  rewrite Hw, Hsq.
+  destruct (abs_diff_eq (f64_add pw w) expected); [eexists; reflexivity|].
+  destruct (flt expected (f64_add pw w)); [eexists; reflexivity|].
+  destruct (flt (f64_add pw w) expected); apply IH; exact HT.
+Qed.
+
+Lemma scan_down_ok positions pws expected : forall qs pw mn mx,
+  Forall (fun q => S q < length pws /\ q < length positions) qs ->
+  exists r, scan_down positions pws expected qs pw mn mx = Ok r.
+Proof.
+  induction qs as [|q qt IH]; intros pw mn mx HF; cbn [scan_down]; [eexists; reflexivity|].
+  inversion HF as [|? ? [H1 H2] HT]; subst.
+  destruct (nth_opt_lt pws (S q) H1) as [w Hw]. destruct (nth_opt_lt positions q H2) as [sq Hsq].
+  rewrite Hw, Hsq.
+  destruct (abs_diff_eq (f64_sub pw w) expected); [eexists; reflexivity|].
+  destruct (flt (f64_sub pw w) expected); [eexists; reflexivity|].
+  destruct (flt expected (f64_sub pw w)); apply IH; exact HT.
+Qed.
+
+Lemma update_split_ok tol n positions pws total p s left :
+  length positions = n - 1 -> length pws = n -> p < n - 1 ->
+  exists r, update_split tol n positions pws total p s left = Ok r.
+Proof.
+  intros HP HW Hp. unfold update_split.
+  destruct (s_settled s); [eexists; reflexivity|].
+  destruct (flt _ tol); [eexists; reflexivity|].
+  match goal with |- exists r, bind ?X _ = _ => assert (HX : exists mm, X = Ok mm) end.
+  { destruct (flt _ _).
+    - apply scan_up_ok. rewrite Forall_forall. intros q Hq. apply in_seq in Hq. lia.
+    - apply scan_down_ok. rewrite Forall_forall. intros q Hq. apply in_rev in Hq. apply in_seq in Hq. lia. }
+  destruct HX as [[mn mx] ->]. cbn [bind].
+  destruct (s_pos s =? avg_u64 mn mx)%N; eexists; reflexivity.
+Qed.
+
+Lemma update_splits_ok tol n positions pws total : forall ss p lefts,
+  length positions = n - 1 -> length pws = n -> p + length ss = n - 1 ->
+  exists r, update_splits tol n positions pws total p ss lefts = Ok r.
+Proof.
+  induction ss as [|s st IH]; intros p lefts HP HW Hp; cbn [update_splits]; [eexists; reflexivity|].
+  destruct lefts as [|l lt]; [eexists; reflexivity|].
+  cbn [length] in Hp.
+  destruct (update_split_ok tol n positions pws total p s l HP HW) as [[s' b] ->]; [lia|]. cbn [bind].
+  destruct (IH (S p) lt HP HW) as [[r c] ->]; [lia|]. cbn [bind]. eexists; reflexivity.
+Qed.
+
+Lemma wq_round_ok tol n pts ws ss :
+  1 <= n -> length ss = n - 1 -> exists r c, wq_round tol n pts ws ss = Ok (r, c) /\ length r = length ss.
+Proof.
+  intros Hn HL. unfold wq_round.
+  destruct (part_weights_of_ok (map s_pos ss) pts ws (repeat fzero n)) as [pws E].
+  { rewrite repeat_length, map_length. lia. }
+  rewrite E. cbn [bind].
+  pose proof (part_weights_of_length _ _ _ _ _ E) as HW. rewrite repeat_length in HW.
+  destruct (update_splits_ok tol n (map s_pos ss) pws (fold_left f64_add pws fnegzero) ss 0 (prefix_sums fzero pws))
+    as [[r c] E2]; try lia.
+  { rewrite map_length. exact HL. }
+  exists r, c. split; [exact E2|]. eapply update_splits_length; [|exact E2]. rewrite prefix_sums_length. lia.
+Qed.
+
+Lemma wq_loop_no_panic tol n pts ws : 1 <= n -> forall fuel ss todo,
+  length ss = n - 1 -> no_panic (wq_loop tol fuel n pts ws ss todo).
+Proof.
+  intros Hn. induction fuel as [|f IH]; intros ss todo HL; destruct todo as [|t]; cbn [wq_loop];
+    try (left; eexists; reflexivity); try (right; reflexivity).
+  destruct (wq_round_ok tol n pts ws ss Hn HL) as [r [c [E L]]]. rewrite E. cbn [bind].
+  apply IH. congruence.
+Qed.
+
+(* inside the contract (at least one point, part_count >= 1) the quantile
+   search has no reachable panic: every index it uses is in range *)
+Theorem weighted_quantiles_no_panic tol fuel pts ws n :
+  pts <> [] -> 1 <= n -> no_panic (weighted_quantiles tol fuel pts ws n).
+Proof.
+  intros Hp Hn. unfold weighted_quantiles. destruct n as [|n']; [lia|].
+  destruct pts as [|x t]; [congruence|]. cbn [min_list max_list].
+  set (ss := init_splits _ _ _).
+  assert (HL : length ss = S n' - 1) by (unfold ss, init_splits; rewrite map_length, seq_length; reflexivity).
+  destruct (wq_loop_no_panic tol (S n') (x :: t) ws Hn fuel ss (length ss) HL) as [[r ->]| ->]; cbn [bind].
+  - left. eexists; reflexivity.
+  - right. reflexivity.
+Qed.
+
+Theorem hilbert_partition_no_panic tol maxo order fuel idx ws k p0 :
+  length idx = length p0 -> 1 <= k ->
+  no_panic (hilbert_partition tol maxo order fuel idx ws k p0)
+  \/ hilbert_partition tol maxo order fuel idx ws k p0 = Err (InvalidOrder maxo order).
+Proof.
+  intros HL Hk. unfold hilbert_partition.
+  destruct (maxo <? order)%N; [right; reflexivity|]. left.
+  destruct p0 as [|x0 p0']; [left; eexists; reflexivity|].
+  assert (Hne : idx <> []) by (destruct idx; [discriminate|congruence]).
+  destruct (weighted_quantiles_no_panic tol fuel idx ws k Hne Hk) as [[splits ->]| ->]; cbn [bind].
+  - destruct (assign_parts_total splits idx) as [ids ->]. cbn [bind]. left. eexists; reflexivity.
+  - right. reflexivity.
+Qed.
